@@ -12,6 +12,7 @@ edge equations their documentation defines, for every monotone user analysis, in
 Nothing here decides: TLC does."""
 import json
 import os
+import re
 
 import core
 from core import Report, ToolError
@@ -38,7 +39,7 @@ def _canary(rep, shard):
     for x in lines:
         e = json.loads(x)
         if e["ev"] == "reset":
-            if len(evs) > 4000 and len(starts) >= 12:
+            if len(evs) > 500 and len(starts) >= 12:
                 break
             starts.append(len(evs))
         evs.append(e)
@@ -111,12 +112,16 @@ def check(seed, tier):
     rep = Report("X01", seed, tier)
     core.build_harness()
     cfg = "MC_InterprocFix.cfg" if tier == "quick" else "MC_InterprocFix_thorough.cfg"
-    r = core.mc(rep, "mc/MC_InterprocFix.tla", cfg, workers=4, coverage=True, timeout=3000, label="MC_InterprocFix (%s)" % tier)
-    acts = rep.cov["mc_runs"][-1].get("action_coverage", {})
-    if "ApplyOne" not in acts or acts["ApplyOne"][1] == 0:
-        raise ToolError("model checking: action ApplyOne never taken (vacuous instance): %s" % acts)
+    # (no -coverage: its per-expression cost accounting of the recursive Kleene / graph operators exhausts the heap)
+    r = core.mc(rep, "mc/MC_InterprocFix.tla", cfg, workers=4, timeout=3000, label="MC_InterprocFix (%s)" % tier)
+    m = re.search(r"Finished computing initial states: (\d+) distinct state", r.out)
+    depth = re.search(r"The depth of the complete state graph search is (\d+)", r.out)
+    if not rep.violations:
+        if not m or not depth or r.distinct <= int(m.group(1)) or int(depth.group(1)) < 5:
+            raise ToolError("model checking: the equations are never applied (vacuous instance):\n" + r.out[-1500:])
+        rep.cov["mc_runs"][-1].update({"configurations": int(m.group(1)), "depth": int(depth.group(1))})
 
-    meta = core.gen("X01", seed, tier, shards=4 if tier == "quick" else 8)
+    meta = core.gen("X01", seed, tier, shards=3 if tier == "quick" else 8)
     results = core.validate_traces(rep, TRACE_SPEC, meta["files"], parallel=4, timeout=3000)
     _outside(results)
     if not rep.violations:
